@@ -125,3 +125,317 @@ theorem lshCoef_fused_eq (f : Fuse) (hf : f ≠ .overwrite) (b k : Nat) (a res :
     exact (zipWith_w64_zeros _ hf0 _ (fun r hr => hres r (List.mem_of_mem_drop hr)) _ (by simp)).symm
 
 end NormL
+
+namespace NormL
+
+/-- **`vec_znx_lsh_assign` is `vec_znx_lsh` with `res = a`** (within head-room) -/
+theorem lshAssignCoef_eq {b : Nat} {H : Int} (k : Nat) (hr : HeadRoom 64 b (k % b) H) (a : List Int)
+    (ha : ∀ x ∈ a, |x| ≤ H) : lshAssignCoef b k a = lshCoef .overwrite b k a a := by
+  unfold lshAssignCoef lshCoef
+  simp only [Nat.max_self, if_true]
+  generalize hs : k / b = s
+  generalize hrr : k % b = r at hr ⊢
+  by_cases hbig : s ≥ a.length
+  · rw [if_pos hbig, if_pos hbig]
+  · rw [if_neg hbig, if_neg hbig]
+    have hm : min a.length (a.length - s) = a.length - s := by omega
+    have hc : min (s + (a.length - s)) a.length = a.length := by omega
+    rw [hm, hc]
+    have hd : a.drop a.length = [] := by simp
+    have hcarry : (carryOnlyRun 64 b r ([] : List Int)).getD 0 = 0 := rfl
+    rw [hd, hcarry]
+    have htk : (a.drop s).take (a.length - s) = a.drop s := by
+      apply List.take_of_length_le; simp
+    rw [htk]
+    have hdb : ∀ x ∈ a.drop s, |x| ≤ H := fun x hx => ha x (List.mem_of_mem_drop hx)
+    rw [assignRun_eq hr _ hdb]
+    have hl : (finalTopRun 64 b r (a.drop s) 0).length = a.length - s := by
+      rw [finalTopRun_eq_middleRun, middleRun_length]; simp
+    have hz : List.zipWith (fun (x : Int) d => Fuse.apply .overwrite x d) (a.take (a.length - s))
+        (finalTopRun 64 b r (a.drop s) 0) = finalTopRun 64 b r (a.drop s) 0 := by
+      simp only [Fuse.apply]
+      apply zipWith_snd_eq
+      rw [hl]; simp
+    rw [hz]
+    congr 2
+    omega
+
+end NormL
+
+namespace NormL
+
+theorem torusNear_of_cong {X X' Y : Int} {px py : Nat} (h : ∃ t : Int, X = X' + t * 2 ^ px)
+    (hn : TorusNear X' px Y py) : TorusNear X px Y py := by
+  obtain ⟨t, ht⟩ := h
+  obtain ⟨k, e, h1, h2⟩ := hn
+  refine ⟨k + t, e, ?_, h2⟩
+  rw [ht, pow_add]
+  linear_combination h1
+
+/-- list-level core of `vec_znx_rsh_add_into` / `vec_znx_rsh_sub`: top limbs of `res` re-normalised
+together with the (signed) carry, middle limbs `± digit`, bottom limbs untouched -/
+theorem rsh_fused_core {b : Nat} {H : Int} (hr : HeadRoom 64 b 0 H) (sub : Bool)
+    (R1 R2 R3 TopO M : List Int) (c2 : Int)
+    (hR1 : ∀ x ∈ R1, |x| ≤ H) (hc2 : |c2| ≤ H + 3)
+    (hTopO : ∃ q : Int, valI b TopO + q * 2 ^ (b * R1.length) = c2) (hTl : TopO.length = R1.length)
+    (hMl : M.length = R2.length)
+    (hw : ∀ p ∈ List.zip R2 M, |p.1 + p.2| < 2 ^ 63 ∧ |p.1 - p.2| < 2 ^ 63) :
+    let cS := if sub then w64 (-c2) else c2
+    let res' := finalTopRun 64 b 0 R1 cS
+        ++ List.zipWith (fun r d => if sub then w64 (r - d) else w64 (r + d)) R2 M ++ R3
+    res'.length = (R1 ++ R2 ++ R3).length ∧
+    ∃ t : Int, valI b res' - valI b (R1 ++ R2 ++ R3)
+      = (if sub then -1 else 1) * valI b (TopO ++ M ++ List.replicate R3.length 0)
+        + t * 2 ^ (b * (R1 ++ R2 ++ R3).length) := by
+  intro cS res'
+  have hcS : cS = (if sub then -c2 else c2) := by
+    cases sub with
+    | false => simp only [cS, Bool.false_eq_true, if_false]
+    | true =>
+      simp only [cS, if_true]
+      apply w64_eq_of_abs_lt
+      rw [abs_neg]
+      have h1 := hr.hH
+      have e : (2 : Int) ^ (64 - 1) = 2 ^ 63 := by norm_num
+      rw [e] at h1
+      have h2 := two_pow_pos b
+      linarith
+  have hcSb : |cS| ≤ H + 3 := by
+    rw [hcS]
+    cases sub with
+    | false => simpa using hc2
+    | true => simp only [if_true]; rw [abs_neg]; exact hc2
+  obtain ⟨⟨q, hq⟩, hlen, _⟩ := finalTopRun_spec hr R1 hR1 cS hcSb
+  obtain ⟨q', hq'⟩ := hTopO
+  simp only [pow_zero, mul_one] at hq
+  have hzl : (List.zipWith (fun r d => if sub then w64 (r - d) else w64 (r + d)) R2 M).length = R2.length := by
+    simp [hMl]
+  refine ⟨by simp [res', hlen, hMl], ?_⟩
+  have hmid : valI b (List.zipWith (fun r d => if sub then w64 (r - d) else w64 (r + d)) R2 M)
+      = valI b R2 + (if sub then -1 else 1) * valI b M := by
+    cases sub with
+    | false =>
+      simp only [Bool.false_eq_true, if_false, one_mul]
+      rw [zipWith_w64_add R2 M (fun p hp => (hw p hp).1), valI_zipWith_add b R2 M hMl.symm]
+    | true =>
+      simp only [if_true]
+      rw [zipWith_w64_sub R2 M (fun p hp => (hw p hp).2), valI_zipWith_sub b R2 M hMl.symm]; ring
+  refine ⟨(if sub then -1 else 1) * q' - q, ?_⟩
+  simp only [res']
+  rw [valI_append, valI_append, valI_append, valI_append, valI_append, valI_append, valI_replicate_zero,
+    hmid, hzl, List.length_replicate]
+  simp only [List.length_append, hMl]
+  have e1 : (2 : Int) ^ (b * (R1.length + R2.length + R3.length))
+      = 2 ^ (b * R1.length) * 2 ^ (b * R2.length) * 2 ^ (b * R3.length) := by
+    rw [← pow_add, ← pow_add]; congr 1; ring
+  rw [e1]
+  have hTA : valI b (finalTopRun 64 b 0 R1 cS) = valI b R1 + cS - q * 2 ^ (b * R1.length) := by linarith
+  have hTO : valI b TopO = c2 - q' * 2 ^ (b * R1.length) := by linarith
+  rw [hTA, hTO, hcS]
+  cases sub with
+  | false => simp only [Bool.false_eq_true, if_false]; ring
+  | true => simp only [if_true]; ring
+
+end NormL
+
+namespace NormL
+
+theorem take_split3 (res : List Int) (e s : Nat) (hes : e ≤ s) :
+    res = res.take e ++ (res.take s).drop e ++ res.drop s := by
+  have h1 : res.take s = (res.take s).take e ++ (res.take s).drop e := (List.take_append_drop e _).symm
+  have h2 : (res.take s).take e = res.take e := by rw [List.take_take]; congr 1; omega
+  rw [h2] at h1
+  conv_lhs => rw [← List.take_append_drop s res, h1]
+
+/-- **`vec_znx_rsh_add_into` / `vec_znx_rsh_sub`**: `res' − res` equals `± (vec_znx_rsh into a
+temporary)` modulo one full turn of the torus (`2^(b·rs)`), limbs of `res` within head-room. -/
+theorem rshCoef_fused_cong {b : Nat} {H : Int} (hr : HeadRoom 64 b 0 H) (hb62 : b ≤ 62) (sub : Bool) (k : Nat)
+    (a res : List Int) (ha : ∀ x ∈ a, |x| ≤ H) (hres : ∀ r ∈ res, |r| ≤ H) (hres62 : ∀ r ∈ res, |r| ≤ 2 ^ 62) :
+    (rshCoef (if sub then Fuse.sub else Fuse.add) b k a res).length = res.length ∧
+    ∃ t : Int, valI b (rshCoef (if sub then Fuse.sub else Fuse.add) b k a res) - valI b res
+      = (if sub then -1 else 1) * valI b (rshCoef .overwrite b k a res) + t * 2 ^ (b * res.length) := by
+  have hb : 1 ≤ b := by have := hr.hlsh; omega
+  obtain ⟨_, hl⟩ := rshSteps_spec hb k
+  have hrl := hr.with_lsh hl
+  have h0 : |(0 : Int)| ≤ H + 3 := by have := hr.hH0; simp; linarith
+  generalize hsteps : (rshSteps b k).1 = steps
+  generalize hlsh : (rshSteps b k).2 = lsh at hrl
+  set resEnd := min res.length steps with hresEnd
+  set resStart := min res.length (a.length + steps) with hresStart
+  set aStart := min a.length (res.length - steps) with haStart
+  have hmr : resStart - resEnd = aStart := by omega
+  set D := a.drop aStart with hD
+  set M' := (a.take aStart).drop (aStart - (resStart - resEnd)) with hM'
+  have hM'eq : M' = a.take aStart := by rw [hM', hmr]; simp
+  have hDb : ∀ x ∈ D, |x| ≤ H := fun x hx => ha x (List.mem_of_mem_drop hx)
+  have hMb : ∀ x ∈ M', |x| ≤ H := fun x hx => by rw [hM'eq] at hx; exact ha x (List.mem_of_mem_take hx)
+  set c0 := (carryOnlyRun 64 b lsh D).getD 0 with hc0
+  have hc0b : |c0| ≤ H + 3 := by
+    rw [hc0, carryOnlyRun_getD hrl D hDb]; exact (middleRun_spec hrl D hDb 0 h0).2.2.2
+  set c1 := gapRun 64 b lsh (min (steps - res.length) (gapCap 64 b)) c0 with hc1
+  have hc1b : |c1| ≤ H + 3 := (gapRun_spec hrl hc0b _).1
+  obtain ⟨_, mlen, mbal, mcb⟩ := middleRun_spec hrl M' hMb c1 hc1b
+  set mid := middleRun 64 b lsh M' c1 with hmid
+  have hzb : ∀ x ∈ List.replicate resEnd (0 : Int), |x| ≤ H := by
+    intro x hx; rw [(List.mem_replicate.mp hx).2]; simpa using hr.hH0
+  obtain ⟨⟨qO, hqO⟩, tlen, _⟩ := finalTopRun_spec hrl (List.replicate resEnd 0) hzb mid.2 mcb
+  rw [valI_replicate_zero, List.length_replicate, zero_mul, zero_add] at hqO
+  rw [List.length_replicate] at tlen
+  set R1 := res.take resEnd with hR1
+  set R2 := (res.take resStart).drop resEnd with hR2
+  set R3 := res.drop resStart with hR3
+  have hsplit : res = R1 ++ R2 ++ R3 := take_split3 res resEnd resStart (by omega)
+  have hR1l : R1.length = resEnd := by simp [hR1]; omega
+  have hR2l : R2.length = resStart - resEnd := by simp [hR2]; omega
+  have hR3l : R3.length = res.length - resStart := by simp [hR3]
+  have hMl : mid.1.length = R2.length := by
+    rw [mlen, hM'eq, hR2l, hmr]; simp; omega
+  have hw : ∀ p ∈ List.zip R2 mid.1, |p.1 + p.2| < 2 ^ 63 ∧ |p.1 - p.2| < 2 ^ 63 := by
+    intro p hp
+    have hm := List.of_mem_zip hp
+    have h1 : |p.1| ≤ 2 ^ 62 := hres62 _ (by
+      have : p.1 ∈ res.take resStart := List.mem_of_mem_drop hm.1
+      exact List.mem_of_mem_take this)
+    have h2 := (mbal _ hm.2).abs_le
+    have h3 : (2 : Int) ^ (b - 1) ≤ 2 ^ 61 := two_pow_le (by omega)
+    have h4 := abs_add_le p.1 p.2
+    have h5 := abs_sub p.1 p.2
+    have : (2 : Int) ^ 62 + 2 ^ 61 < 2 ^ 63 := by norm_num
+    constructor <;> linarith
+  have hcore := rsh_fused_core hr sub R1 R2 R3 (finalTopRun 64 b lsh (List.replicate resEnd 0) mid.2) mid.1 mid.2
+    (fun x hx => hres x (List.mem_of_mem_take hx)) mcb ⟨qO, by rw [hR1l]; exact hqO⟩ (by rw [tlen, hR1l]) hMl hw
+  obtain ⟨hlen, t, ht⟩ := hcore
+  rw [← hsplit] at hlen ht
+  -- identify the two `rshCoef` unfoldings
+  have hO : rshCoef .overwrite b k a res
+      = finalTopRun 64 b lsh (List.replicate resEnd 0) mid.2 ++ mid.1 ++ List.replicate R3.length 0 := by
+    unfold rshCoef
+    simp only [hsteps, hlsh, hR3l]
+    rfl
+  have hF : rshCoef (if sub then Fuse.sub else Fuse.add) b k a res
+      = finalTopRun 64 b 0 R1 (if sub then w64 (-mid.2) else mid.2)
+          ++ List.zipWith (fun r d => if sub then w64 (r - d) else w64 (r + d)) R2 mid.1 ++ R3 := by
+    unfold rshCoef
+    cases sub <;> simp only [hsteps, hlsh, Bool.false_eq_true, if_false, if_true] <;> rfl
+  rw [hO, hF]
+  exact ⟨hlen, t, ht⟩
+
+end NormL
+
+namespace NormL
+
+/-- the four limb ranges of the same-radix routine tile the result -/
+theorem interRanges_facts (lo : Int) (rs as : Nat) :
+    (interRanges lo rs as).1 ≤ (interRanges lo rs as).2.1 ∧ (interRanges lo rs as).2.1 ≤ rs ∧
+    (interRanges lo rs as).2.2.1 ≤ (interRanges lo rs as).2.2.2 ∧ (interRanges lo rs as).2.2.2 ≤ as ∧
+    (interRanges lo rs as).2.1 - (interRanges lo rs as).1 = (interRanges lo rs as).2.2.2 - (interRanges lo rs as).2.2.1 := by
+  unfold interRanges clampNat
+  simp only
+  omega
+
+/-- on zero limbs the carry propagation does not depend on the intra-limb shift -/
+theorem finalTopRun_zeros_lsh {bits b lsh : Nat} {H : Int} (hr : HeadRoom bits b lsh H) :
+    ∀ (n : Nat) (c : Int), |c| ≤ H + 3 →
+      finalTopRun bits b lsh (List.replicate n 0) c = finalTopRun bits b 0 (List.replicate n 0) c := by
+  have hb : 1 ≤ b := by have := hr.hlsh; omega
+  have hr0 : HeadRoom bits b 0 H := hr.with_lsh (by omega)
+  have h0 : |(0 : Int)| ≤ H := by simpa using hr.hH0
+  have hm : 1 ≤ b - lsh := by have := hr.hlsh; omega
+  -- one step
+  have hstep : ∀ c : Int, |c| ≤ H + 3 → middleStepS bits b lsh 0 c = middleStepS bits b 0 0 c := by
+    intro c hc
+    rw [(middleStepS_eq hr h0 hc).1, (middleStepS_eq hr0 h0 hc).1]
+    simp only [bmod_zero (b - lsh) hm, bcarry_zero (b - lsh) hm, Nat.sub_zero, bmod_zero b hb, bcarry_zero b hb,
+      zero_mul]
+  have hmid : ∀ (n : Nat) (c : Int), |c| ≤ H + 3 →
+      middleRun bits b lsh (List.replicate n 0) c = middleRun bits b 0 (List.replicate n 0) c := by
+    intro n
+    induction n with
+    | zero => intro c _; rfl
+    | succ n ih =>
+      intro c hc
+      simp only [List.replicate_succ, middleRun]
+      rw [ih c hc]
+      have hcb : |(middleRun bits b 0 (List.replicate n 0) c).2| ≤ H + 3 := by
+        have hz : ∀ x ∈ List.replicate n (0 : Int), |x| ≤ H := by
+          intro x hx; rw [(List.mem_replicate.mp hx).2]; exact h0
+        exact (middleRun_spec hr0 _ hz c hc).2.2.2
+      rw [hstep _ hcb]
+  intro n c hc
+  rw [finalTopRun_eq_middleRun, finalTopRun_eq_middleRun, hmid n c hc]
+
+theorem zipWith_map_right' {α : Type} (f : α → Int → Int) (g : Int → Int) (l : List α) (m : List Int) :
+    List.zipWith (fun r d => f r (g d)) l m = List.zipWith f l (m.map g) := by
+  rw [List.zipWith_map_right]
+
+/-- **the NTT120 same-radix fused kernels are the fall-back form**: within head-room,
+`ntt120_vec_znx_big_normalize_inter_assign::<O>` returns `res[j] ± tmp[j]` limb for limb, where `tmp` is
+what `ntt120_vec_znx_big_normalize` writes into a temporary of `res`'s size. -/
+theorem normalizeInterAssignCoef128_eq {b : Nat} {H : Int} (hr : HeadRoom 128 b 0 H) (op : AccOp) (off : Int)
+    (a res : List Int) (ha : ∀ x ∈ a, |x| ≤ H) (hres : ∀ r ∈ res, |r| < 2 ^ 63) :
+    normalizeInterAssignCoef128 op b off a res
+      = List.zipWith (fun r x => op.apply r x) res ((normalizeInterCoef 128 b res.length off a).map w64) := by
+  have hb : 1 ≤ b := by have := hr.hlsh; omega
+  obtain ⟨_, hl⟩ := splitOffset_spec hb off
+  have hrl := hr.with_lsh hl
+  have h0 : |(0 : Int)| ≤ H + 3 := by have := hr.hH0; simp; linarith
+  have hop0 : ∀ r, |r| < 2 ^ 63 → op.apply r (w64 0) = r := by
+    intro r hr'
+    have hw0 : w64 0 = 0 := by decide
+    cases op with
+    | add => simp only [AccOp.apply, hw0, add_zero]; exact w64_eq_of_abs_lt hr'
+    | sub => simp only [AccOp.apply, hw0, sub_zero]; exact w64_eq_of_abs_lt hr'
+  unfold normalizeInterAssignCoef128 normalizeInterCoef
+  simp only
+  obtain ⟨f1, f2, f3, f4, f5⟩ := interRanges_facts (splitOffset b off).2 res.length a.length
+  generalize (splitOffset b off).1 = lsh at hrl ⊢
+  generalize hrg : interRanges (splitOffset b off).2 res.length a.length = rg at f1 f2 f3 f4 f5 ⊢
+  obtain ⟨resEnd, resStart, aEnd, aStart⟩ := rg
+  simp only at f1 f2 f3 f4 f5 ⊢
+  set D := a.drop aStart with hD
+  set M' := (a.take aStart).drop aEnd with hM'
+  have hDb : ∀ x ∈ D, |x| ≤ H := fun x hx => ha x (List.mem_of_mem_drop hx)
+  have hMb : ∀ x ∈ M', |x| ≤ H := fun x hx => ha x (List.mem_of_mem_take (List.mem_of_mem_drop hx))
+  set c0 := (carryOnlyRun 128 b lsh D).getD 0 with hc0
+  have hc0b : |c0| ≤ H + 3 := by
+    rw [hc0, carryOnlyRun_getD hrl D hDb]; exact (middleRun_spec hrl D hDb 0 h0).2.2.2
+  set c1 := gapRun 128 b lsh (min (Int.toNat (-(splitOffset b off).2 - ↑res.length)) (gapCap 128 b)) c0 with hc1
+  have hc1b : |c1| ≤ H + 3 := (gapRun_spec hrl hc0b _).1
+  obtain ⟨_, mlen, _, mcb⟩ := middleRun_spec hrl M' hMb c1 hc1b
+  set mid := middleRun 128 b lsh M' c1 with hmid
+  have hM'l : M'.length = aStart - aEnd := by simp [hM']; omega
+  have hml : mid.1.length = resStart - resEnd := by rw [mlen, hM'l]; omega
+  have hmidLo : resStart - mid.1.length = resEnd := by rw [hml]; omega
+  rw [hmidLo, ← finalTopRun_zeros_lsh hrl resEnd mid.2 mcb]
+  have hemp : (res.take resEnd).drop resEnd = [] := by
+    apply List.drop_eq_nil_of_le; simp
+  rw [hemp, List.append_nil]
+  set top := finalTopRun 128 b lsh (List.replicate resEnd 0) mid.2 with htop
+  have htl : top.length = resEnd := by
+    rw [htop, finalTopRun_eq_middleRun, middleRun_length]; simp
+  -- split `res`
+  have hsplit := take_split3 res resEnd resStart f1
+  conv_rhs => rw [hsplit]
+  rw [List.map_append, List.map_append, List.map_replicate]
+  have hl1 : (res.take resEnd).length = (top.map w64).length := by simp [htl]; omega
+  have hl2 : ((res.take resStart).drop resEnd).length = (mid.1.map w64).length := by simp [hml]; omega
+  rw [List.zipWith_append (by simp [hl1, hl2]), List.zipWith_append hl1]
+  have hgen : ∀ (l : List Int), (∀ r ∈ l, |r| < 2 ^ 63) → ∀ n, n = l.length →
+      List.zipWith (fun r x => op.apply r x) l (List.replicate n (w64 0)) = l := by
+    intro l hl n hn
+    subst hn
+    induction l with
+    | nil => simp
+    | cons x l ih =>
+      simp only [List.length_cons, List.replicate_succ, List.zipWith_cons_cons]
+      rw [hop0 x (hl x (by simp)), ih (fun r hr' => hl r (by simp [hr']))]
+  congr 1
+  · congr 1
+    · exact zipWith_map_right' (fun r x => op.apply r x) w64 _ _
+    · exact zipWith_map_right' (fun r x => op.apply r x) w64 _ _
+  · symm
+    apply hgen _ (fun r hr' => hres r (List.mem_of_mem_drop hr'))
+    simp only [List.length_append, List.length_take, List.length_drop]
+    omega
+
+end NormL
